@@ -30,11 +30,11 @@ func init() {
 	register(&Rule{ID: "R-LOCK", Floor: 2, Run: ruleLock,
 		Text: "Run holds the evaluator's mutex around Execute on every path; Prepare holds it by defer."})
 	register(&Rule{ID: "R-NONDETSRC", Floor: 4, Run: ruleNondetSrc,
-		Text: "The library starts no goroutine, has no select with more than one communication case, prints no pointer values (%p) and converts no pointer to an integer."})
+		Text: "The library starts no goroutine, has no select with more than one communication case, prints no pointer values (%p) and converts no pointer to an integer; an address obtained from reflection is used for nothing but to look things up by it (key of a set that is never enumerated, equality)."})
 	register(&Rule{ID: "R-MAPORDER", Floor: 6, Run: ruleMapOrder,
 		Text: "Every iteration over a Go map (range or reflect MapKeys) is order-insensitive (its body only inserts into a map), or only collects into one slice that is sorted before any other use with a comparator that is total on the collected elements, or is listed with its reason."})
 	register(&Rule{ID: "R-HASHKEY", Floor: 3, Run: ruleHashKey,
-		Text: "Every HashKey() implementation fills both the type component (from the object's own Type()) and the value component, so keys of different types that print alike stay distinct."})
+		Text: "Every HashKey() implementation fills both the type component (from the object's own Type()) and the value component, so keys of different types that print alike stay distinct; and wherever the machine takes the key of an object, the object is the one the script supplied on every path — never one the machine made in its place."})
 }
 
 // ---------------------------------------------------------------------------
